@@ -23,10 +23,10 @@ import (
 // C12 — Read-only EVM contexts cannot change state through custom precompiles.
 
 type c12Case struct {
-	Ops     []string `json:"ops"`     // call opcodes from the top contract down; the last one targets the precompile
-	Cpc     string   `json:"cpc"`     // erc20 | staking | bech32
-	Method  string   `json:"method"`  // ABI method name
-	Data    string   `json:"data"`    // packed call data (hex)
+	Ops     []string `json:"ops"`    // call opcodes from the top contract down; the last one targets the precompile
+	Cpc     string   `json:"cpc"`    // erc20 | staking | bech32
+	Method  string   `json:"method"` // ABI method name
+	Data    string   `json:"data"`   // packed call data (hex)
 	NumVals int      `json:"num_vals"`
 	Static  bool     `json:"static"` // false: control case without any STATICCALL edge (read-only methods must still not write)
 }
